@@ -30,6 +30,7 @@ LEVEL_TEXT = (
     "function reports across a seeded sweep of models, parameters, lengths and expm settings, and every exponentiator "
     "is compared with scipy on the same matrices, including adversarial (near-defective, badly scaled) ones."
     " User-built nucleotide predicate models (directed, undirected and named predicates in every order) are rebuilt from their definition; acceptance and Q must not depend on predicate order and whatever is accepted as time-reversible must satisfy detailed balance."
+    " GeneralStationary parameter vectors must be refused or give a valid generator; rates partitioned across bins without a distribution, and the ordered 'free' distribution, are checked with unequal bin probabilities; Q and the exponentiator of the sequence-alignment route (aligned=False) and the per-bin table of uncalibrated matrices are compared with the definition."
 )
 LEVEL_NOTE = "trusted: numpy/scipy linear algebra. Sampled parameter space; held = held on the matrices listed in the evidence"
 TECHNIQUE = "runtime monitoring: algebraic invariants on observed Q/P matrices + differential check of expm back-ends vs scipy"
